@@ -80,7 +80,7 @@ def run(ctx):
     # (the passive contracts of C05, C06, C09, C14, C20 ride along as extra observation points; which of the package's functions
     #  the pipeline goes through is not a required route)
     ctx.require_events('text-row:objects-with-other-package-in-between', 'pipeline:run', 'recovered:rank1', 'text-row:checked')
-    ctx.require_regimes('mode:2d', 'mode:3d', 'style:v1', 'style:v2', 'exact-plant', 'noisy-plant', 'av0:at-bound', 'av0:interior', 'sources-per-file>1', 'plant:with-unused-or-limit-band', '3d:distance-range-not-in-kpc', 'package:model-without-flux-in-a-band')
+    ctx.require_regimes('mode:2d', 'mode:3d', 'style:v1', 'style:v2', 'exact-plant', 'noisy-plant', 'av0:at-bound', 'av0:interior', 'sources-per-file>1', 'plant:with-unused-or-limit-band', '3d:distance-range-not-in-kpc', 'package:model-without-flux-in-a-band', 'conf:flag-not-lower-case')
     n_pipe = 10 if ctx.quick else 200
     ip = 0
     tries = 0
@@ -104,6 +104,9 @@ def run(ctx):
         os.mkdir(md)
         order = list(rng.permutation(n_m))
         step = float(rng.choice([0.05, 0.1]))
+        pkg.YESNO = tries          # yes/no, Yes/No, YES/NO, y/n, Y/N in models.conf
+        if tries % 5:
+            ctx.regime('conf:flag-not-lower-case')
         nf = int(rng.integers(2, 5))
         filters = []
         fw_first = None
